@@ -1,0 +1,92 @@
+package ast
+
+import (
+	"reflect"
+)
+
+// deepCopyAny copies a value held in one of the `any` slots of the IR
+// (defaults, constant values, hints, constraint arguments, ...).
+//
+// Scalars are returned as they are. Slices, maps and pointers — the parsers
+// store lists and struct defaults as `[]any` and `map[string]any` — are
+// copied recursively so that the copy shares no mutable structure with the
+// original. IR nodes stored by value (hints carry `DisjunctionType` values)
+// are copied with their own DeepCopy method.
+func deepCopyAny(value any) any {
+	switch value.(type) {
+	case nil, string, bool,
+		int, int8, int16, int32, int64,
+		uint, uint8, uint16, uint32, uint64,
+		float32, float64:
+		return value
+	}
+
+	return deepCopyValue(reflect.ValueOf(value)).Interface()
+}
+
+func deepCopyValue(value reflect.Value) reflect.Value {
+	switch value.Kind() {
+	case reflect.Slice:
+		if value.IsNil() {
+			return value
+		}
+
+		clone := reflect.MakeSlice(value.Type(), value.Len(), value.Len())
+		for i := 0; i < value.Len(); i++ {
+			clone.Index(i).Set(deepCopyValue(value.Index(i)))
+		}
+
+		return clone
+	case reflect.Map:
+		if value.IsNil() {
+			return value
+		}
+
+		clone := reflect.MakeMapWithSize(value.Type(), value.Len())
+		iter := value.MapRange()
+		for iter.Next() {
+			clone.SetMapIndex(iter.Key(), deepCopyValue(iter.Value()))
+		}
+
+		return clone
+	case reflect.Interface:
+		if value.IsNil() {
+			return value
+		}
+
+		clone := reflect.New(value.Type()).Elem()
+		clone.Set(deepCopyValue(value.Elem()))
+
+		return clone
+	case reflect.Ptr:
+		if value.IsNil() {
+			return value
+		}
+
+		clone := reflect.New(value.Type().Elem())
+		clone.Elem().Set(deepCopyValue(value.Elem()))
+
+		return clone
+	case reflect.Struct:
+		addressable := reflect.New(value.Type())
+		addressable.Elem().Set(value)
+
+		// IR nodes know how to copy themselves
+		if method := addressable.MethodByName("DeepCopy"); method.IsValid() &&
+			method.Type().NumIn() == 0 && method.Type().NumOut() == 1 && method.Type().Out(0) == value.Type() {
+			return method.Call(nil)[0]
+		}
+
+		clone := addressable.Elem()
+		for i := 0; i < clone.NumField(); i++ {
+			if !clone.Field(i).CanSet() {
+				continue
+			}
+			clone.Field(i).Set(deepCopyValue(value.Field(i)))
+		}
+
+		return clone
+	default:
+		return value
+	}
+}
